@@ -24,14 +24,14 @@ CHECKS = {
     "C08": {
         "engine": "sx",
         "technique": "bounded symbolic execution of the real async_map_unordered/retry wrapper with z3 (own engine sx): future outcomes, completion order and clock are solver variables",
-        "text": "For every assignment of outcomes (running/ok/failed) to every pending future at every wake-up, every iteration order of simultaneously finished futures and every clock increment within the stated bounds (n<=3 inputs quick / <=4 thorough, bounded number of observations), the real async_map_unordered satisfies the retry/backup contract: no foreign exception, exactly one result per input on normal completion, an error only when no submission of that input succeeded or is still running, <=2 submissions per input; the tenacity retry wrapper makes min(k+1, retries+1) attempts and re-raises the last error. Decided by z3 over all paths, not sampled.",
+        "text": "For every assignment of outcomes (running/ok/failed) to every pending future at every wake-up, every iteration order of simultaneously finished futures and every clock increment within the stated bounds (n<=3 inputs quick / <=4 thorough, bounded number of observations), the real async_map_unordered satisfies the retry/backup contract: no foreign exception, exactly one result per input on normal completion, an error only when no submission of that input succeeded or is still running, <=2 submissions per input; the tenacity retry wrapper makes min(k+1, retries+1) attempts and re-raises the last error. Decided by z3 over all paths, not sampled. Configurations with 0 and 1 inputs (with and without batching) are included.",
         "note": "asyncio.wait/Future/time replaced by the sched stubs (contract: any subset of pending futures completes per wake-up, non-decreasing clock); should_launch_backup min_tasks lowered to 1; integer times; schedules longer than the bound are outside the claim; lithops' own map_unordered and real I/O fault injection are outside.",
     },
 }
 CHECKS["C15"] = {
     "engine": "sx",
     "technique": "bounded symbolic execution (z3) of the real index-notation key-function compiler and of the real fusion code on provenance terms",
-    "text": "(a) For every index pattern within the bound (<=2 args x <=2 dims x 2-3 symbols quick; up to 3 args / 3 dims / 4 symbols thorough), every block-count combination 1..3 with per-argument broadcast, new axes and every output coordinate, the key function returned by make_blockwise_back_key_function_flattened names exactly the blocks the index algebra designates (same array, argument position, coordinates; 0 on broadcast axes; explicit ValueError iff a contracted axis has several blocks). (b) For 14 fusion trees (depth 2-3) over key functions taken from the real operations (elementwise/broadcast/transpose via the index compiler; partial_reduce stream, stack alternating source, repeat and scan with block-id delivery, unstack multi-output: closures re-instantiated from the current code objects) the real fuse_blockwise_specs/fuse yield a spec whose evaluation on symbolic blocks equals the unfused evaluation, including list-vs-iterator structure. Decided by z3 on every path.",
+    "text": "(a) For every index pattern within the bound (<=2 args x <=2 dims x 2-3 symbols quick; up to 3 args / 3 dims / 4 symbols thorough), every block-count combination 1..3 with per-argument broadcast, new axes and every output coordinate, the key function returned by make_blockwise_back_key_function_flattened names exactly the blocks the index algebra designates (same array, argument position, coordinates; 0 on broadcast axes; explicit ValueError iff a contracted axis has several blocks). (b) For 14 fusion trees (depth 2-3) over key functions taken from the real operations (elementwise/broadcast/transpose via the index compiler; partial_reduce stream, stack alternating source, repeat and scan with block-id delivery, unstack multi-output: closures re-instantiated from the current code objects) the real fuse_blockwise_specs/fuse yield a spec whose evaluation on symbolic blocks equals the unfused evaluation, including list-vs-iterator structure. Decided by z3 on every path. Patterns in which the SAME array stands at two argument positions with different index tuples are included (variable `same`).",
     "note": "block functions are uninterpreted constructors; patterns with repeated symbols inside one index and literal arguments are outside; concat/index selection key functions are covered under C01/C02; fusion trees deeper than 3 outside.",
 }
 _GEOM_NOTE = ("NumPy's arithmetic on block values is an uninterpreted symbol (stubs/anp.py models only result shapes and index routing, validated against NumPy at check start); "
@@ -40,7 +40,7 @@ _GEOM_NOTE = ("NumPy's arithmetic on block values is an uninterpreted symbol (st
 CHECKS["C01"] = {
     "engine": "sx",
     "technique": "bounded symbolic execution (z3) of the real construction path and real task bodies on abstract arrays: element provenance vs NumPy index maps",
-    "text": "For 24 operation scenarios (elementwise incl. broadcasting and differently chunked inputs, sum/mean tree reductions, slicing with step, integer index, concat, stack, expand/squeeze, repeat, flip, cumulative_sum, roll, unstack, rechunk, permute_dims, broadcast_to, blocks view) the real cubed construction code runs on metadata-only arrays whose length, per-input chunk sizes and parameters are solver variables; the real plan is then evaluated on abstract blocks (real key functions, real map_nested, real block functions) and for a symbolic output element the provenance (which source elements, which argument position, which multiplicity for reductions) must equal NumPy's definition. Decided by z3 over all geometries within the bound (lengths <= 6 quick / 10 thorough), not sampled.",
+    "text": "For 24 operation scenarios (elementwise incl. broadcasting and differently chunked inputs, sum/mean tree reductions, slicing with step, integer index, concat, stack, expand/squeeze, repeat, flip, cumulative_sum, roll, unstack, rechunk, permute_dims, broadcast_to, blocks view) the real cubed construction code runs on metadata-only arrays whose length, per-input chunk sizes and parameters are solver variables; the real plan is then evaluated on abstract blocks (real key functions, real map_nested, real block functions) and for a symbolic output element the provenance (which source elements, which argument position, which multiplicity for reductions) must equal NumPy's definition. Decided by z3 over all geometries within the bound (lengths <= 6 quick / 10 thorough), not sampled. Catalogue (quick): 50 scenarios incl. pad, diff/map_overlap, tile, where, moveaxis/3-d permutations, outer, vecdot, matmul, integer-array and integer+negative-step indexing, reshape over both axes and 1d->2d, tril/triu, max, concat/roll/flip/cumulative_sum along axis 1, arange with either step sign, store into an existing target.",
     "note": _GEOM_NOTE,
 }
 CHECKS["C12"] = {
@@ -58,13 +58,13 @@ CHECKS["C17"] = {
 CHECKS["C05"] = {
     "engine": "sx",
     "technique": "bounded symbolic execution (z3) of the real rechunk/store construction: per-dimension grid lemma (task-grid boundaries are storage-grid boundaries) over the real plan",
-    "text": "For rechunk (regular and irregular intermediate grids, every memory budget that changes the copy chunks), store into existing arrays with their own chunking, sharded targets, region stores, to_zarr to a path and catalogue operations, with symbolic shape/chunk sizes/budget/region: every boundary of an operation's task (write) grid is a boundary of the storage grid of the array it writes (regular or rectilinear), the storage grid tiles the array, and the task iterable enumerates each write cell exactly once -- hence each stored chunk has one writer that writes it whole. ChunkKeys.range equals the slice of itertools.product.",
+    "text": "For rechunk (regular and irregular intermediate grids, every memory budget that changes the copy chunks), store into existing arrays with their own chunking, sharded targets, region stores, to_zarr to a path and catalogue operations, with symbolic shape/chunk sizes/budget/region: every boundary of an operation's task (write) grid is a boundary of the storage grid of the array it writes (regular or rectilinear), the storage grid tiles the array, and the task iterable enumerates each write cell exactly once -- hence each stored chunk has one writer that writes it whole. ChunkKeys.range equals the slice of itertools.product. Sharded targets with inner chunks smaller than the shard: the shard grid is the storage grid (whole stores and region stores). Stores with the all-open region (slice(None),).",
     "note": _GEOM_NOTE + " Single-stage rechunk plans (min_mem=1) in quick; 2-D rechunks in the thorough tier; multi-stage plans under C14. Atomicity of one key write is the storage contract.",
 }
 CHECKS["C11"] = {
     "engine": "sx",
     "technique": "bounded symbolic execution (z3) of real store/_store_array/to_zarr construction and tasks on abstract blocks: per-element provenance vs region semantics",
-    "text": "For stores into existing targets (any chunking), sharded targets, paths and regions with symbolic geometry: a target element inside the region receives source element (e - region.start), an element outside the region is written by no task, blocks fit their write regions, misaligned or wrongly shaped regions and mismatched source/target/region lists are rejected with ValueError at build time (iff they are invalid).",
+    "text": "For stores into existing targets (any chunking), sharded targets, paths and regions with symbolic geometry: a target element inside the region receives source element (e - region.start), an element outside the region is written by no task, blocks fit their write regions, misaligned or wrongly shaped regions and mismatched source/target/region lists are rejected with ValueError at build time (iff they are invalid). Regions with fewer slices than dimensions, with negative or open bounds or with a step are either refused at build time or filled exactly as NumPy's slice assignment would.",
     "note": _GEOM_NOTE + " The aliasing side of store (one lazy source stored to several targets; eager vs lazy histories) has no symbolic domain and is outside the claim (DESIGN.md C10/C11).",
 }
 CHECKS["C13"] = {
@@ -76,13 +76,13 @@ CHECKS["C13"] = {
 CHECKS["C14"] = {
     "engine": "sx",
     "technique": "bounded symbolic execution (z3) of the real rechunk planner functions on integer proxies (exact rational model of true division)",
-    "text": "consolidate_chunks (1-2 dims quick, 3 thorough; sizes up to 10**6, budgets up to 2**40; chunk_limits None/-1/explicit): ValueError iff the chunks exceed max_mem, otherwise result within [chunks, upper bound], aligned with the source chunks, within max_mem, and no AssertionError. Both multistage planners: explicit ValueError iff the request is infeasible, otherwise a non-empty chained stage list whose every read/intermediate/write chunk fits max_mem, intermediate = min(read, write), last write chunks a multiple of the target chunks (or the full extent), regular variant aligned with what the previous stage wrote - 1-d fully symbolic (sizes <= 200/1000), 2-d incl. reachable multi-stage plans with geometry forked by value and symbolic budgets. rechunk_plan/_rechunk_plan/rechunk on metadata arrays: copy ops start at the array's chunking, are chained, end at the requested chunking; data part of every accepted copy fits the derived budget. Termination: AST side condition (no while loops, finite for-loops, single guarded recursion) + per-path step budget.",
+    "text": "consolidate_chunks (1-2 dims quick, 3 thorough; sizes up to 10**6, budgets up to 2**40; chunk_limits None/-1/explicit): ValueError iff the chunks exceed max_mem, otherwise result within [chunks, upper bound], aligned with the source chunks, within max_mem, and no AssertionError. Both multistage planners: explicit ValueError iff the request is infeasible, otherwise a non-empty chained stage list whose every read/intermediate/write chunk fits max_mem, intermediate = min(read, write), last write chunks a multiple of the target chunks (or the full extent), regular variant aligned with what the previous stage wrote - 1-d fully symbolic (sizes <= 200/1000), 2-d incl. reachable multi-stage plans with geometry forked by value and symbolic budgets. rechunk_plan/_rechunk_plan/rechunk on metadata arrays: copy ops start at the array's chunking, are chained, end at the requested chunking; data part of every accepted copy fits the derived budget. Termination: AST side condition (no while loops, finite for-loops, single guarded recursion) + per-path step budget. The rechunked array (and the Zarr grid backing it) has exactly the requested chunks, every chunk of it.",
     "note": "int/int true division modelled as exact rationals (lemma: operands < 2**53); np.geomspace = real NumPy on value-forked endpoints; 2-d obligations fork geometry by value because products of two symbolic extents did not finish in z3 (>600 s); >3 dims, ExcessiveIOWarning heuristics and multspace's docstring claim (multspace(40,40,2) == [1,39], an efficiency glitch recorded in DESIGN.md) are outside.",
 }
 CHECKS["C07"] = {
     "engine": "sx",
     "technique": "bounded symbolic execution (z3) of the real async_map_dag/async_map_unordered/DAG traversal on scheduler stubs: completion subsets, interleavings and clock are solver variables; barrier asserted over the event trace",
-    "text": "For real finalized plans (chain with unequal task counts, diamond, independent branches, multi-output op, implicit rechunk; optimize on/off) and every schedule within the bound (which pending futures complete at each wake-up, in which order they are seen, which generation-mate is polled next, clock increments; compute_arrays_in_parallel on/off, batch_size None/1/2, backups on/off): every task is submitted only after a successful completion of every task of every operation producing its inputs and of every create-arrays task, and an operation's stream ends only when all its tasks completed. SingleThreadedExecutor.execute_dag: same, for every subset of operations marked computed.",
+    "text": "For real finalized plans (chain with unequal task counts, diamond, independent branches, multi-output op, implicit rechunk; optimize on/off) and every schedule within the bound (which pending futures complete at each wake-up, in which order they are seen, which generation-mate is polled next, clock increments; compute_arrays_in_parallel on/off, batch_size None/1/2, backups on/off): every task is submitted only after a successful completion of every task of every operation producing its inputs and of every create-arrays task, and an operation's stream ends only when all its tasks completed. SingleThreadedExecutor.execute_dag: same, for every subset of operations marked computed. Also on DAGs flagged the way FinalizedPlan.execute(resume=True) flags them (array nodes flagged, every subset of operations flagged computed): the barrier holds among the operations left to run; the barrier is checked at every submission.",
     "note": "asyncio.wait/Future/time/aiostream replaced by stubs/sched.py (validated against a real event loop at check start); schedules with more than the stated number of 'still running' observations and task failures (C08) are outside; a task is taken to read its inputs between submit and complete.",
 }
 CHECKS["C04"] = {
@@ -100,7 +100,7 @@ CHECKS["C09"] = {
 CHECKS["C02"] = {
     "engine": "sx",
     "technique": "bounded symbolic execution (z3): real construction, real DAG rewrite by every optimizer, evaluation of original and optimized real plans on abstract blocks; provenance equality",
-    "text": "For 15 compositions (chains, diamonds, repeated arguments, reductions over/under elementwise ops, mean, selections, concat/stack/unstack/repeat between elementwise ops, implicitly rechunked inputs, requested and shared intermediates) with symbolic geometry and for the default multiple-input optimizer (also with symbolic max_total_source_arrays / max_total_num_input_blocks incl. None), the legacy map-fusion optimizer, fuse-all and fuse-only: every element of every requested array has the same provenance (same source elements, argument positions, multiplicities) in the optimized real plan as in the unoptimized one; every requested array still has a producing operation; each operation's source_array_names equal its DAG predecessors and are readable.",
+    "text": "For 15 compositions (chains, diamonds, repeated arguments, reductions over/under elementwise ops, mean, selections, concat/stack/unstack/repeat between elementwise ops, implicitly rechunked inputs, requested and shared intermediates) with symbolic geometry and for the default multiple-input optimizer (also with symbolic max_total_source_arrays / max_total_num_input_blocks incl. None), the legacy map-fusion optimizer, fuse-all and fuse-only: every element of every requested array has the same provenance (same source elements, argument positions, multiplicities) in the optimized real plan as in the unoptimized one; every requested array still has a producing operation; each operation's source_array_names equal its DAG predecessors and are readable. Compositions include streaming predecessors (reductions, concat) used for two arguments of one consumer; an exception raised by the optimized plan where the unoptimized plan produced the element is a violation.",
     "note": _GEOM_NOTE + " Compositions beyond the catalogue and store targets (C11) are outside; that the fused closure pickles is outside.",
 }
 CHECKS["C18"] = {
@@ -118,13 +118,13 @@ CHECKS["C19"] = {
 CHECKS["C20"] = {
     "engine": "sx",
     "technique": "symbolic execution (z3) of the real name generators and of the real plan merge with symbolic process states; counterexamples replayed through real cloudpickle in two processes",
-    "text": "Name identity part: the three gensym functions give names that determine the counter (injective formatting incl. the 999->1000 width change) and increase by one; an array built in a process that had built k1 arrays, shipped and combined with an array built in a process that had built k2 arrays (k1, k2 symbolic), must keep its identity in the merged real plan (distinct array and operation names, provenance of the result names both operands). On the current tree this FAILS whenever the counters coincide: listed as a known finding (reproduced through the public API with real cloudpickle in two processes); any other violation still fails the check.",
+    "text": "Name identity part: the three gensym functions give names that determine the counter (injective formatting incl. the 999->1000 width change) and increase by one; an array built in a process that had built k1 arrays, shipped and combined with an array built in a process that had built k2 arrays (k1, k2 symbolic), must keep its identity in the merged real plan (distinct array and operation names, provenance of the result names both operands). On the current tree this FAILS whenever the counters coincide: listed as a known finding (reproduced through the public API with real cloudpickle in two processes); any other violation still fails the check. A shipped array that is planned/finalized ON ITS OWN after the receiving process finalized a same-named array of its own must get its own plan (own storage, own source, own operation).",
     "note": "a second process is modelled by fresh values of the module-level name counters, advanced by really building arrays; cloudpickle fidelity and value equality after a round trip are outside (exercised only in the replay).",
 }
 CHECKS["C06"] = {
     "engine": "sx",
     "technique": "bounded symbolic execution (z3) of the real task body (apply_blockwise) on recording arrays and of the real per-block RNG seeding with a symbolic 128-bit root seed",
-    "text": "(i) For the operation catalogue with symbolic geometry and a symbolic block coordinate, the real apply_blockwise run twice issues the same reads and writes (a function of (coordinates, config) only), writes each output array exactly once, into the region of its own block coordinates and inside the array, and never reads an array it writes; with C05's disjointness of task regions this yields order/repetition/placement independence of the stored values (stated argument). (iii) random(): the Philox key of a block is valid for every 128-bit root seed, identical on re-execution of the block and distinct for distinct blocks.",
+    "text": "(i) For the operation catalogue with symbolic geometry and a symbolic block coordinate, the real apply_blockwise run twice issues the same reads and writes (a function of (coordinates, config) only), writes each output array exactly once, into the region of its own block coordinates and inside the array, and never reads an array it writes; with C05's disjointness of task regions this yields order/repetition/placement independence of the stored values (stated argument). (iii) random(): the Philox key of a block is valid for every 128-bit root seed, identical on re-execution of the block and distinct for distinct blocks. (iv) an array that was computed and is then stored with the real store() (which re-targets the operation's write proxy): the task executed afterwards writes the new target, nothing cached by the earlier execution redirects it.",
     "note": _GEOM_NOTE + " Determinism of NumPy functions, cloudpickle round trips and third-party process-global state are outside; 'after downstream operations ran' needs C07. Also decided: the real create-arrays task (create_zarr_array -> LazyZarrArray.create -> open_zarr_v3_array) on stubs/zarr_model.py (validated against the installed zarr on 120 operation x pre-state combinations) from every pre-state of the store (existence/written flags are solver variables), re-run after downstream writes: open-or-create, never truncate, for plain and structured dtypes.",
 }
 CHECKS["C03"] = {
